@@ -31,4 +31,5 @@ def main():
             print("pre cu:", json.dumps(p["cu"]))
         print("post nodes:", json.dumps(e["nodes"]))
         print("post cu:", json.dumps(e["cu"]))
-main()
+if __name__ == "__main__":
+    main()
